@@ -68,6 +68,15 @@ func GenWS(t *rapid.T, p Profile) WS {
 		default:
 			tg.Inputs = []string{"src/a.txt", "src/b.txt", "src/missing.txt"}
 		}
+		if tg.Pkg == "a" && rapid.IntRange(0, 2).Draw(t, "childglob") == 0 {
+			// a parent package may declare files that live inside a nested package's directory
+			tg.Inputs = append(tg.Inputs, "b/src/*.txt")
+			for _, f := range []string{"a/b/src/a.txt", "a/b/src/c.txt"} {
+				if _, ok := w.Files[f]; !ok {
+					w.Files[f] = rapid.SampledFrom(contentPool).Draw(t, "content")
+				}
+			}
+		}
 		kinds := []int{0, 1, 1, 1, 2}
 		if p.DirOutputs {
 			kinds = append(kinds, 3, 3, 4)
@@ -147,6 +156,14 @@ func GenHistory(t *rapid.T, p Profile) History {
 			s.Build = genBuild(t, p, h.WS)
 		}
 		h.Steps = append(h.Steps, s)
+		if k == "toggle-file" || (k == "edit-content" && rapid.IntRange(0, 3).Draw(t, "revert") == 0) {
+			// "there and back again": S1 -> S2 -> S1 with builds in between, so that the last build is served an OLD entry
+			back := s
+			if k == "edit-content" {
+				back = Step{Kind: "restore-content", T: s.T, F: s.F}
+			}
+			h.Steps = append(h.Steps, Step{Kind: "build", Build: genBuild(t, p, h.WS)}, back, Step{Kind: "build", Build: genBuild(t, p, h.WS)})
+		}
 	}
 	// histories end with a build so that the last edits are observed
 	if h.Steps[len(h.Steps)-1].Kind != "build" {
